@@ -2,9 +2,9 @@ SPECIFICATION MCSpec
 CONSTANTS
   PcodeNs = {0, 99}
   Okinds = {0, 1}
-  Onodes = {0, 2}
-  BlobIds = {"nil", "one"}
-  MaxItems = 2
+  Onodes = {0}
+  BlobIds = {"one"}
+  MaxItems = 1
   Marker = 8
   NoStamp = {}
   Reverse = FALSE
